@@ -38,6 +38,8 @@ func init() {
 			c.ruleLoopProg()
 			c.ruleErrWrap("dot/state")
 			c.min("R-ERRWRAP", 1)
+			c.ruleEpochKeyPrefix()
+			c.min("R-KEYPREFIX", 1)
 			c.ruleLockPairing("R-LOCKPAIR", "dot/state")
 			c.ruleEpochKeyRoles()
 			c.ruleConfigFallback()
